@@ -376,7 +376,7 @@ pub fn run(ctx: &Ctx) -> &'static str {
     ctx.explore(
         "texts",
         "file contents from a grammar (valid IPv4 / IPv6 incl. mapped and zone forms, garbage, blanks, tabs, CRLF, lone CR, Unicode spaces, BOM, duplicates, no trailing newline, 0..40 lines) and arbitrary bytes as UTF-8; refuse iff no parsable line, else exactly the parsable lines in order; non-trivial = non-blank text",
-        ctx.tier.pick(40_000, 1_000_000),
+        ctx.tier.pick(150_000, 1_500_000),
         file_text,
         |_| check_text,
     );
@@ -384,7 +384,7 @@ pub fn run(ctx: &Ctx) -> &'static str {
     ctx.explore(
         "apply",
         "sequences of reloads (address sets from the loopback range, with repeats, garbage and blank lines, LF/CRLF) through the parser and the real apply_connection_changes on a live shell with packets queued, in flight and tracked; survivors keep identity, socket object, local port and full state projection (incl. guard state and queue contents); removed links vanish with their I/O handle and attribution records; each new address added once with an I/O entry; routing choice forgotten when a link was removed; refused reloads change nothing; non-trivial = a reload that removes a link owning tracked seqs while keeping another",
-        ctx.tier.pick(3_000, 60_000),
+        ctx.tier.pick(10_000, 100_000),
         || apply_strategy(mo),
         |_| check_apply,
     );
